@@ -1,8 +1,10 @@
 (* Properties_C10.v — C10: a refused call leaves the object unchanged.
    FULL STATEMENT (visible): C10_full_statement.  It is false of the code for objects whose
    mandatory parameters were retyped (known finding, witness below); what is proved: every
-   refusal by a documented guard returns the state as it was, and the only remaining way for
-   frame() to throw is from the updaters after the store (C10_frame_throw_cases). *)
+   refusal by a documented guard returns the state as it was; and on objects whose mandatory parameters are well typed
+   (mt_b) ANY throw of frame(), parameter(), point(frames), point(name)/analog(name)-before-data leaves the object
+   as it was, because the updaters that run after the mutation do not throw (Proofs_Updaters.v).  Not proved:
+   analog(frames) (its guards are not yet characterised), lock/unlock are trivial (C10_unknown_group). *)
 From EZ Require Import Base Types Api Proofs_Param Proofs_Store Proofs_Guards Proofs_Refuse Spec_Typed Proofs_Updaters Float32 Run.
 Local Open Scope N_scope.
 
@@ -65,6 +67,37 @@ Theorem C10_frame_any_throw_unchanged : forall f_key f_tosize f_div f_is_zero,
   api_frame f_key f_tosize f_div f_is_zero f idx s = RThrow e s' -> s' = s.
 Proof. exact api_frame_throw_unchanged. Qed.
 Print Assumptions C10_frame_any_throw_unchanged.
+
+(* parameter(): COMPLETE up to the known finding.  A throw leaves the object as it was whenever the tree the call produces
+   (tree_after, the documented replace-or-append) still has well-typed mandatory parameters; the other case — the call
+   retypes or empties one of them — is the known finding mandatory-parameter-retyped (witness below). *)
+Theorem C10_parameter_any_throw_unchanged : forall f_key f_tosize f_div,
+  (forall x e, f_key x <> Throw e) -> (forall x e, f_tosize x <> Throw e) ->
+  forall gname p s e s',
+  (p_name p <> [] -> p_type p <> TNone -> MT (tree_after (groups s) gname p)) ->
+  api_parameter f_key f_tosize f_div gname p s = RThrow e s' -> s' = s.
+Proof. exact api_parameter_throw_unchanged. Qed.
+Print Assumptions C10_parameter_any_throw_unchanged.
+
+(* point(frames): COMPLETE for columns of uniform height on well-typed objects *)
+Theorem C10_point_column_any_throw_unchanged : forall f_key f_tosize f_div,
+  (forall x e, f_key x <> Throw e) -> (forall x e, f_tosize x <> Throw e) ->
+  forall news s e s',
+  MT (groups s) ->
+  (forall n n0, nth_error news 0 = Some n0 -> In n news -> nlen (fr_pts n0) <= nlen (fr_pts n)) ->
+  (forall k s1, point_cols k 0 news s = ROk tt s1 -> small_frames (frames s1)) ->
+  api_point_col f_key f_tosize f_div news s = RThrow e s' -> s' = s.
+Proof. exact api_point_col_throw_unchanged. Qed.
+Print Assumptions C10_point_column_any_throw_unchanged.
+
+(* point(name) / analog(name) before any frame: the declaration is the updater alone, which does not throw *)
+Theorem C10_declare_never_throws : forall f_key f_tosize f_div,
+  (forall x e, f_key x <> Throw e) -> (forall x e, f_tosize x <> Throw e) ->
+  forall nP nA s e s',
+  MT (groups s) -> frames s = [] -> npts0 s nP < 2147483648 -> nan0 s nA < 2147483648 ->
+  update_parameters f_key f_tosize f_div nP nA s <> RThrow e s'.
+Proof. exact declare_without_frames_never_throws. Qed.
+Print Assumptions C10_declare_never_throws.
 
 (* the updater itself: no throw, parameters stay well typed, frames and prologue untouched *)
 Theorem C10_update_parameters_never_throws : forall f_key f_tosize f_div,
